@@ -620,6 +620,19 @@ func (vc *VC) resolveAt(name string, b *ssa.BasicBlock) SV {
 				}
 			}
 		}
+		// a variable re-assigned in a loop or branch that ended before b lives in a phi of a dominator (go/ssa names
+		// the phi after the variable); without this the stale value of an outer dominator would be taken.
+		for _, in := range d.Instrs {
+			phi, ok := in.(*ssa.Phi)
+			if !ok {
+				break
+			}
+			if phi.Comment == name {
+				if v, ok := vc.vals[phi]; ok {
+					return vc.typedSV(v, phi.Type())
+				}
+			}
+		}
 	}
 	return nil
 }
